@@ -477,6 +477,39 @@ class Analysis:
             parts = [p.strip() for p in elem.strip('()').split(',')] if elem.startswith('(') else [elem]
             if all(self.TOTAL_ELEM.match(p) for p in parts if p):
                 return True, 'natural order of %s' % elem
+            # a generic helper (`fn sorted_keys<K: Ord, V>(m: &HashMap<K, V>) -> Vec<K>`): judged for every type the product callers
+            # instantiate the element type with
+            if re.match(r'^&*[A-Z]\w*$', elem) and '::' not in elem and fn.kind in ('Fn', 'AssocFn'):
+                name = elem.lstrip('&')
+                insts = set()
+                sites = [x for x in self.prog.callers.get(fn.name, []) if not mir.is_testsupport(x.fn.name) and not x.inlined]
+                for x in sites:
+                    bound = None
+                    for pi in range(1, fn.argc + 1):
+                        pty = fn.ty.get(pi, '') or ''
+                        if not re.search(r'\b%s\b' % name, pty) or pi - 1 >= len(x.args):
+                            continue
+                        aty = x.fn.ty.get(op_local(x.args[pi - 1]), '') if is_place(x.args[pi - 1]) else x.args[pi - 1].get('ty', '')
+                        toks = re.split(r'(?<![\w:])([A-Z]\w*)(?![\w:])', re.sub(r"'\w+ ", '', pty))
+                        rx, seen_t = '', False
+                        for ti, tok in enumerate(toks):
+                            if ti % 2 == 0:
+                                rx += re.escape(tok)
+                            elif tok == name:
+                                rx += '(?P=T)' if seen_t else '(?P<T>.+?)'
+                                seen_t = True
+                            else:
+                                rx += '.+?'
+                        mm = re.fullmatch(rx, re.sub(r"'\w+ ", '', aty or ''))
+                        if mm:
+                            bound = mm.group('T').strip()
+                            break
+                    if bound is None:
+                        insts = None
+                        break
+                    insts.add(bound)
+                if insts and all(self.TOTAL_ELEM.match(t) for t in insts):
+                    return True, 'natural order of %s, instantiated by the callers with %s' % (elem, ', '.join(sorted(insts)))
             return False, 'the natural order of %s is not known to distinguish all elements' % elem[:60]
         if len(c.args) < 2:
             return False, 'comparator not found'
